@@ -2,6 +2,7 @@
 package main
 
 import (
+	"encoding/hex"
 	"errors"
 	"fmt"
 	"hash"
@@ -78,6 +79,59 @@ func doHash(refAbs bool, h uint32, n int32, how int) string {
 		if want := int32((int64(h) & 0x7fffffff) % int64(n)); c != want {
 			run.IOFail("hash-reference-differs-from-java", in, fmt.Sprintf("got %d want %d", c, want))
 		}
+	}
+	return strconv.Itoa(int(c))
+}
+
+// doHashKey: real default hashers (FNV-1a) on real keys, including keys whose encoding is empty.
+func doHashKey(refAbs bool, key []byte, kind int, n int32) string {
+	var p sarama.Partitioner
+	if refAbs {
+		p = sarama.NewReferenceHashPartitioner("t")
+	} else {
+		p = sarama.NewHashPartitioner("t")
+	}
+	var enc sarama.Encoder
+	switch {
+	case kind == 0:
+		enc = sarama.ByteEncoder(key)
+	case kind == 1:
+		enc = sarama.StringEncoder(string(key))
+	default:
+		if len(key) == 0 {
+			enc = sarama.ByteEncoder(nil)
+		} else {
+			enc = sarama.ByteEncoder(key)
+		}
+	}
+	msg := &sarama.ProducerMessage{Topic: "t", Key: enc}
+	in := fmt.Sprintf("hk %v %s %d", refAbs, hlib.Hex(key), n)
+	c, err := p.Partition(msg, n)
+	if err != nil {
+		return "err"
+	}
+	for i := 0; i < 3; i++ {
+		c2, _ := p.Partition(msg, n)
+		if c2 != c {
+			run.IOFail("hash-equal-keys-different-partitions", in, fmt.Sprintf("%d then %d", c, c2))
+			break
+		}
+	}
+	h := uint32(2166136261)
+	for _, b := range key {
+		h ^= uint32(b)
+		h *= 16777619
+	}
+	if refAbs {
+		if want := int32((int64(h) & 0x7fffffff) % int64(n)); c != want {
+			run.IOFail("hash-reference-differs-from-java", in, fmt.Sprintf("got %d want %d", c, want))
+		}
+	}
+	if c < 0 || c >= n {
+		run.IOFail("hash-out-of-range", in, fmt.Sprintf("choice %d", c))
+	}
+	if dp, ok := p.(sarama.DynamicConsistencyPartitioner); ok && !dp.MessageRequiresConsistency(msg) {
+		run.IOFail("keyed-message-not-consistency-requiring", in, "MessageRequiresConsistency = false for a non-nil key")
 	}
 	return strconv.Itoa(int(c))
 }
@@ -171,6 +225,13 @@ func doFallback(n, a int32) string {
 	}
 }
 
+func hexDecode(s string) ([]byte, error) {
+	if s == "-" {
+		return nil, nil
+	}
+	return hex.DecodeString(s)
+}
+
 func main() {
 	run = hlib.Start("C17")
 	rnd := hlib.NewRand(run.Seed)
@@ -215,7 +276,18 @@ func main() {
 				nn = edgeN[rnd.Intn(len(edgeN))]
 			}
 			emitHash(rnd.Bool(), h, nn, rnd.Intn(2))
-		case 4, 5:
+		case 4:
+			kl := rnd.Pick(0, 0, 1, 2, 5, 16)
+			key := make([]byte, kl)
+			for j := range key {
+				key[j] = byte(rnd.Intn(256))
+			}
+			nn := int32(rnd.Range(1, 64))
+			if rnd.Chance(1, 4) {
+				nn = int32(rnd.U64()%0x7fffffff) + 1
+			}
+			emitHashKey(rnd.Bool(), key, rnd.Intn(3), nn)
+		case 5:
 			k := rnd.Range(1, 24)
 			ns := make([]int32, k)
 			cur := int32(rnd.Range(1, 6))
@@ -293,6 +365,20 @@ func emitHash(ra bool, h uint32, nn int32, how int) {
 	run.Nontrivial(op)
 }
 
+func emitHashKey(ra bool, key []byte, kind int, nn int32) {
+	b := "0"
+	if ra {
+		b = "1"
+	}
+	op := fmt.Sprintf("hk %s %s %d", b, hlib.Hex(key), nn)
+	run.Emit(op, run.Safe(op, func() string { return doHashKey(ra, key, kind, nn) }))
+	run.Count("hash-key")
+	if len(key) == 0 {
+		run.Count("hash-key-empty-encoding")
+	}
+	run.Nontrivial(op)
+}
+
 func emitPM(rc bool, as, ws, ch string) {
 	b := "0"
 	if rc {
@@ -313,6 +399,9 @@ func replayLine(l string) {
 	case "hash":
 		h, _ := strconv.ParseUint(t[2], 10, 32)
 		emitHash(t[1] == "1", uint32(h), int32(hlib.Atoi(t[3])), 0)
+	case "hk":
+		key, _ := hexDecode(t[2])
+		emitHashKey(t[1] == "1", key, 0, int32(hlib.Atoi(t[3])))
 	case "rr":
 		ns := hlib.ParseInts32(t[1])
 		run.Emit(l, doRR(ns))
